@@ -209,7 +209,7 @@ func runC02(c *mon.Ctx) {
 			c.Sample("core-file", map[string]any{"label": core[i].label, "bytes": mon.Hex(core[i].f.Bytes(nil))})
 		}
 	})
-	c.Each("random", c.N(5000, 300_000), func(i int64, r *mon.Rand) {
+	c.Each("random", c.N(20_000, 2_000_000), func(i int64, r *mon.Rand) {
 		f := gen.SMFFile(r, gen.FileOpts{MaxTracks: 8, MaxEvents: 60, AllowBig: i%16 == 0, Aliens: true, PaddedVLQ: true, Running: true})
 		c02Check(c, f, fmt.Sprintf("random %d", i))
 		if i < 1 {
